@@ -426,6 +426,9 @@ AEM = Contract(
     ])},
     ensures={
         "one_more_mode": "self.__n_modes == old(self.__n_modes) + 1",
+        # what is returned is the image of the spec THAT WAS PASSED IN under add_empty_mode_to_circuit_spec (whose element contracts say: copies of the
+        # components that still hold the same Parameter objects) - not the image of a deep copy of it, in which the parameters would be clones
+        "returns_the_shifted_argument": "same_ref(result, add_empty_mode_to_circuit_spec(circuit_spec, mode))",
         "in_heralds_shifted": _shifted("self.__in_heralds", "old(self.__in_heralds)"),
         "out_heralds_shifted": _shifted("self.__out_heralds", "old(self.__out_heralds)"),
         "external_in_shifted": _shifted("self.__external_in_heralds", "old(self.__external_in_heralds)"),
@@ -435,7 +438,7 @@ AEM = Contract(
     },
     raises={},
     replay=replay_aem,
-    props=["C02"],
+    props=["C02", "C10"],
 )
 AEM.enum = enum_aem
 CONTRACTS += [AEM_SPEC, AEM, AM_SPEC]
